@@ -83,6 +83,13 @@ _OWN_EVENT = {
 
 def avel_owners(ev):
     e, o = ev.get('e') or ev.get('fam'), ev.get('o')
+    m = ev.get('m')
+    if isinstance(m, list) and 'count' in ev and 'any' in ev:
+        # a mask destination is logged through all its observers: when they contradict each other the mask type is at
+        # fault (C03), whatever operation produced the mask
+        n = sum(1 for b in m if b)
+        if ev['count'] != n or (ev['any'] == 1) != (n > 0) or (ev.get('all') == 1) != (n == len(m)) or (ev.get('none') == 1) != (n == 0):
+            return ('C03',)
     if e in ('bin', 'un'):
         return _OWN_OP.get(o)
     if e in ('fbin', 'fun'):
